@@ -142,6 +142,19 @@ def _rewrite_block(stmts: list) -> list:
             if g2 is not None:
                 merged[-1] = g2
                 continue
+        # G2r  X = d.get(k); if X is None: return V; return X    ->   return d.get(k, V)
+        if len(merged) >= 2 and isinstance(x, ast.Return) and isinstance(x.value, ast.Name):
+            a, b = merged[-2], merged[-1]
+            if isinstance(a, ast.Assign) and len(a.targets) == 1 and isinstance(a.targets[0], ast.Name) and a.targets[0].id == x.value.id \
+                    and isinstance(a.value, ast.Call) and isinstance(a.value.func, ast.Attribute) and a.value.func.attr == "get" \
+                    and len(a.value.args) == 1 and not a.value.keywords \
+                    and isinstance(b, ast.If) and not b.orelse and len(b.body) == 1 and isinstance(b.body[0], ast.Return) and b.body[0].value is not None \
+                    and isinstance(b.test, ast.Compare) and len(b.test.ops) == 1 and isinstance(b.test.ops[0], ast.Is) \
+                    and isinstance(b.test.left, ast.Name) and b.test.left.id == x.value.id \
+                    and isinstance(b.test.comparators[0], ast.Constant) and b.test.comparators[0].value is None:
+                call = ast.Call(func=a.value.func, args=[a.value.args[0], b.body[0].value], keywords=[])
+                merged[-2:] = [ast.fix_missing_locations(ast.copy_location(ast.Return(value=call), a))]
+                continue
         merged.append(x)
     stmts = merged
     while i < len(stmts):
